@@ -25,7 +25,8 @@ assert rc == 0, out
 try:
     demo = os.path.join(seed, "demo.rs")
     notes = open(os.path.join(seed, "notes.md")).read() if os.path.exists(os.path.join(seed, "notes.md")) else ""
-    in_core = "core/tests" in notes
+    # the demo lives under core/tests only when it uses darling_core directly
+    in_core = os.path.exists(demo) and "darling_core" in open(demo).read()
     DEMO_DIR = os.path.join(WT, "core", "tests") if in_core else os.path.join(WT, "tests")
     DEMO_CMD = "cargo test -p darling_core --offline --test seed_demo 2>&1 | tail -15" if in_core else "cargo test --offline --test seed_demo 2>&1 | tail -15"
     if os.path.exists(demo):
